@@ -244,7 +244,7 @@ def concretize(sym, sim, ids, rng=None):
 class C14(fw.Property):
     id = "C14"
     coq_props = "Props/C14.v"
-    gen_jobs = []
+    gen_jobs = ["c14_message_id"]
     model_imports = ["Verif.Model.C14"]
     quick_budget = 300
     thorough_budget = 9000
@@ -268,6 +268,7 @@ class C14(fw.Property):
             "error, time-out, cancel, stale ACK) inserted at every position; enum (thorough) = all scripts up to depth 5 over a 7-symbol alphabet. "
             "Non-trivial = at least one held-back message was released or dropped; distinct by full input.")
     trusted_base = ["hand-written Model/C14.v (validated by the script/template/enum correspondence streams on every run)",
+                    "translator translate/py2v.py + Lib/Py.v for the message-ID counter (Gen/c14_message_id.v, regenerated from messagemanager.py on every run)",
                     "harness/simloop.py virtual loop (ideal timers, FIFO ready queue) and harness/simnet.py fake transport",
                     "labels of fired timers are read from the timer handle (closure defaults of MessageManager._schedule_retransmit.retr)"]
     assumptions = ["tokens do not wrap around 2^64 within one run while requests are outstanding (dict key replacement not modelled)",
